@@ -14,5 +14,5 @@ CONSTANTS
   Concrete <- NamesPlain
   Now = 100
   FixStaleDb = FALSE
-  OracleTarget = FALSE
+  LiveDbGuard = FALSE
   SafeKeys = FALSE
